@@ -71,8 +71,11 @@ func inDomain(cs *cwCase) (bool, string) {
 	}
 	if cs.Op == "multiget" {
 		for _, p := range cs.MultiGet.Paths {
-			if !strings.HasPrefix(p, "/") || strings.HasPrefix(p, "//") {
-				return false, "object path not absolute"
+			// a name without a leading slash is relative (the client API
+			// resolves every path argument against its endpoint) and judged;
+			// "" and "//..." name no path
+			if p == "" || strings.HasPrefix(p, "//") {
+				return false, "object path empty or starting with //"
 			}
 		}
 		return validStrings(cs.MultiGet.DataRequest.Props...), "invalid characters"
@@ -236,6 +239,12 @@ func pathsClass(paths []string) string {
 		if strings.ContainsAny(p, "#?") {
 			h["delim"] = true
 		}
+		if !strings.HasPrefix(p, "/") {
+			h["relative"] = true
+			if seg, _, _ := strings.Cut(p, "/"); strings.Contains(seg, ":") {
+				h["relative-colon"] = true
+			}
+		}
 		if strings.ContainsAny(p, `<>&"'`) {
 			h["meta"] = true
 		}
@@ -276,6 +285,10 @@ func limitClass(l int) string {
 		return "Limit=2"
 	case l == 1<<31-1:
 		return "Limit=2^31-1"
+	case l == 1<<63-1:
+		return "Limit=2^63-1"
+	case l >= 1<<32:
+		return "Limit>=2^32"
 	}
 	return "Limit>2"
 }
@@ -295,13 +308,14 @@ func limitWire(q *rfc6352.Query) string {
 type wbCase struct {
 	Dir         string           `json:"dir"`
 	Op          string           `json:"op"`     // query | multiget
-	Expect      string           `json:"expect"` // deliver | refuse | zero-limit
+	Expect      string           `json:"expect"` // deliver | refuse | zero-limit | huge-limit
 	Inject      string           `json:"inject,omitempty"`
 	Path        string           `json:"path"`   // decoded request path
 	Target      string           `json:"target"` // request target as sent
 	ContentType string           `json:"content_type"`
 	Depth       string           `json:"depth,omitempty"`
 	Body        string           `json:"body"`
+	Frame       string           `json:"frame,omitempty"` // what surrounds the root element (class, for the tables)
 	Want        *rfc6352.Request `json:"want,omitempty"`
 }
 
@@ -379,6 +393,9 @@ func execWB(c *fw.Ctx, cs *wbCase) {
 		c.Report(dirWB+" | "+field+" | "+trans, what, w)
 	}
 	c.Observe("wire→backend status", fmt.Sprintf("%s %s → %d", cs.Op, cs.Expect, resp.StatusCode), 1)
+	if cs.Frame != "" {
+		c.Observe("wire→backend document framing", fmt.Sprintf("%s, %s → %s", cs.Frame, cs.Expect, statusClass(resp.StatusCode)), 1)
+	}
 
 	switch cs.Expect {
 	case "refuse":
@@ -421,9 +438,44 @@ func execWB(c *fw.Ctx, cs *wbCase) {
 		}
 		c.Observe("wire→backend zero limit (don't-care)", cs.Inject+" → "+beh, 1)
 		return
+	case "huge-limit":
+		// a conformant nresults beyond what AddressBookQuery.Limit can hold:
+		// the denoted request cannot be delivered as it is. Refusing, a
+		// query with some positive limit and a query without limit (which
+		// no real collection answers differently) are accepted; an answer
+		// without asking the backend, or a negative limit, is not.
+		c.Distinct(dirWB + "|huge-limit|" + cs.Inject)
+		beh := fmt.Sprintf("%s, no query", statusClass(resp.StatusCode))
+		if len(queries) == 0 && resp.StatusCode/100 != 4 {
+			report("limit.nresults=<beyond-int64>", "answered-"+statusClass(resp.StatusCode)+"-without-query", fmt.Sprintf("%s: conformant query answered %d without a backend query", cs.Inject, resp.StatusCode))
+		}
+		for _, k := range queries {
+			q := k.Arg.(*carddav.AddressBookQuery)
+			switch {
+			case q.Limit < 0:
+				beh = "backend queried with a negative Limit"
+				report("limit.nresults=<beyond-int64>", "negative-limit", fmt.Sprintf("%s reached the backend as Limit=%d", cs.Inject, q.Limit))
+			case q.Limit == 0:
+				beh = "backend queried without limit"
+			default:
+				beh = "backend queried with a positive Limit"
+			}
+		}
+		c.Observe("wire→backend limit beyond int64 (refusal or a query accepted)", cs.Inject+" → "+beh, 1)
+		return
 	}
 
 	// deliver
+	if sel := cs.Want.Sel(); sel != nil && sel.Data != nil && (sel.Data.ContentType != nil || sel.Data.Version != nil) {
+		mt := "address-data"
+		if sel.Data.ContentType != nil {
+			mt += " content-type=" + *sel.Data.ContentType
+		}
+		if sel.Data.Version != nil {
+			mt += " version=" + *sel.Data.Version
+		}
+		c.Observe("wire→backend address-data media type (not compared)", fmt.Sprintf("%s → %s", mt, statusClass(resp.StatusCode)), 1)
+	}
 	switch cs.Op {
 	case "query":
 		want := wireQuery(cs.Want.Query)
@@ -486,10 +538,19 @@ func execWB(c *fw.Ctx, cs *wbCase) {
 // (for documents meant to be refused: that the reader objects). A failure is
 // a harness defect and makes the run inconclusive, never a finding.
 func selfCheck(c *fw.Ctx, cs *wbCase) bool {
-	req, viol, err := rfc6352.Read([]byte(cs.Body))
+	// the byte order mark is the encoding signature in front of the document
+	// (XML 1.0 appendix F), not a part of it
+	req, viol, err := rfc6352.Read([]byte(unsigned(cs.Body)))
 	if err != nil {
 		c.Inconclusive("C09 harness self-check: own document unreadable: " + err.Error() + "\n" + cs.Body)
 		return false
+	}
+	if cs.Expect == "huge-limit" {
+		if len(viol) > 0 {
+			c.Inconclusive("C09 harness self-check: reader objects to a document meant to be conformant: " + viol[0].String() + "\n" + cs.Body)
+			return false
+		}
+		return true
 	}
 	if cs.Expect != "deliver" {
 		if len(viol) == 0 {
@@ -513,17 +574,33 @@ func selfCheck(c *fw.Ctx, cs *wbCase) bool {
 
 var contentTypes = []string{"application/xml", "text/xml", `application/xml; charset="utf-8"`, "text/xml; charset=utf-8"}
 
-func render(r *rand.Rand, tree *xmltree.Node) string {
+// renderRoot gives a tree a lexical form, framed by at most xmltree's own
+// XML declaration and newlines.
+func renderRoot(r *rand.Rand, tree *xmltree.Node) string {
 	if r.Intn(12) == 0 {
 		return string(xmltree.Render(tree, nil))
 	}
 	return string(xmltree.Render(tree, xmltree.FullLex(r)))
 }
 
+// render gives a tree a lexical form. One document in four is framed anew
+// (frame.go): byte order mark, XML declaration, comments, processing
+// instructions and blanks around the root element.
+func render(r *rand.Rand, tree *xmltree.Node) (body, frameClass string) {
+	body = renderRoot(r, tree)
+	if r.Intn(4) == 0 {
+		f := genFrame(r)
+		return reframe(body, f), f.class()
+	}
+	return body, ""
+}
+
 func newWBQuery(r *rand.Rand, q *rfc6352.Query, book string) *wbCase {
 	tree := rfc6352.QueryTree(q, &rfc6352.WriteOpts{R: r, SplitText: true})
-	return &wbCase{Op: "query", Expect: "deliver", Path: book, Target: rfc6352.EscapeHref(book, r, ""),
-		ContentType: pick(r, contentTypes), Depth: "1", Body: render(r, tree), Want: &rfc6352.Request{Query: q}}
+	cs := &wbCase{Op: "query", Expect: "deliver", Path: book, Target: rfc6352.EscapeHref(book, r, ""),
+		ContentType: pick(r, contentTypes), Depth: "1", Want: &rfc6352.Request{Query: q}}
+	cs.Body, cs.Frame = render(r, tree)
+	return cs
 }
 
 func newWBMultiGet(r *rand.Rand, book string, paths []string, sel rfc6352.Selection) *wbCase {
@@ -536,8 +613,10 @@ func newWBMultiGet(r *rand.Rand, book string, paths []string, sel rfc6352.Select
 		m.Hrefs = append(m.Hrefs, rfc6352.EscapeHref(p, r, auth))
 	}
 	tree := rfc6352.MultiGetTree(m, &rfc6352.WriteOpts{R: r, SplitText: true})
-	return &wbCase{Op: "multiget", Expect: "deliver", Path: book, Target: rfc6352.EscapeHref(book, r, ""),
-		ContentType: pick(r, contentTypes), Depth: pick(r, []string{"", "0", "1"}), Body: render(r, tree), Want: &rfc6352.Request{MultiGet: m}}
+	cs := &wbCase{Op: "multiget", Expect: "deliver", Path: book, Target: rfc6352.EscapeHref(book, r, ""),
+		ContentType: pick(r, contentTypes), Depth: pick(r, []string{"", "0", "1"}), Want: &rfc6352.Request{MultiGet: m}}
+	cs.Body, cs.Frame = render(r, tree)
+	return cs
 }
 
 // find returns the idx-th element {NS}local below n in document order.
@@ -611,8 +690,10 @@ func newWBInjected(r *rand.Rand, inj injection, value, expect string) *wbCase {
 		}
 	}
 	book := "/u/ab/"
-	return &wbCase{Op: "query", Expect: expect, Inject: fmt.Sprintf("%s=%q", inj.Label, value), Path: book, Target: book,
-		ContentType: pick(r, contentTypes), Depth: "1", Body: render(r, tree)}
+	cs := &wbCase{Op: "query", Expect: expect, Inject: fmt.Sprintf("%s=%q", inj.Label, value), Path: book, Target: book,
+		ContentType: pick(r, contentTypes), Depth: "1"}
+	cs.Body, cs.Frame = render(r, tree)
+	return cs
 }
 
 // ------------------------------------------------------------------ workload
@@ -736,7 +817,7 @@ func run(c *fw.Ctx) {
 	}
 	for _, s := range []invSet{
 		{injTests, invalidTests, "refuse"}, {injTypes, invalidTypes, "refuse"}, {injNegs, invalidNegates, "refuse"},
-		{[]injection{injLimit}, invalidLimits, "refuse"}, {[]injection{injLimit}, zeroLimits, "zero-limit"},
+		{[]injection{injLimit}, invalidLimits, "refuse"}, {[]injection{injLimit}, zeroLimits, "zero-limit"}, {[]injection{injLimit}, hugeLimits, "huge-limit"},
 	} {
 		for _, inj := range s.injs {
 			for _, v := range s.values {
@@ -764,13 +845,14 @@ func run(c *fw.Ctx) {
 		tree := rfc6352.QueryTree(baseQuery(), nil)
 		k := 0
 		find(tree, "limit", &k).Children = nil
-		cs := &wbCase{Op: "query", Expect: "zero-limit", Inject: `limit=<no nresults>`, Path: "/u/ab/", Target: "/u/ab/", ContentType: "application/xml", Depth: "1", Body: render(r, tree)}
+		cs := &wbCase{Op: "query", Expect: "zero-limit", Inject: `limit=<no nresults>`, Path: "/u/ab/", Target: "/u/ab/", ContentType: "application/xml", Depth: "1"}
+		cs.Body, cs.Frame = render(r, tree)
 		if selfCheck(c, cs) {
 			execWB(c, cs)
 		}
 	}
 	// valid limits at the boundary
-	for _, v := range []string{"1", "2", "3", "2147483647"} {
+	for _, v := range []string{"1", "2", "3", "2147483647", "2147483648", "4294967295", "4294967296", "4611686018427387904", "9223372036854775807"} {
 		for l := 0; l < nLex; l++ {
 			i, mine := next()
 			if !mine {
@@ -901,9 +983,46 @@ func run(c *fw.Ctx) {
 		execSeq(c, genSeq(c.Rand("seq", i)))
 		c.Observe("universe", "client→wire random call sequences (2-6 calls)", 1)
 	}
+	// (10) document framing: every XML declaration, byte order mark and run of
+	// comments / processing instructions / blanks around the root element of
+	// a query and of a multiget.
+	nLex = c.Pick(1, 6)
+	for _, f := range frameGrid() {
+		for _, op := range []string{"query", "multiget"} {
+			for l := 0; l < nLex; l++ {
+				i, mine := next()
+				if !mine {
+					continue
+				}
+				r := c.Rand("wb-frame", i)
+				book := genBook(r)
+				var cs *wbCase
+				if op == "query" {
+					q, _ := genQuery(r, true)
+					cs = newWBQuery(r, q, book)
+				} else {
+					cs = newWBMultiGet(r, book, genPaths(r, book, 1), genSelection(r, true))
+				}
+				// the same request in a lexical form of its own inside the grid's frame
+				wo := &rfc6352.WriteOpts{R: r, SplitText: true}
+				var tree *xmltree.Node
+				if op == "query" {
+					tree = rfc6352.QueryTree(cs.Want.Query, wo)
+				} else {
+					tree = rfc6352.MultiGetTree(cs.Want.MultiGet, wo)
+				}
+				cs.Body, cs.Frame = reframe(renderRoot(r, tree), f), f.class()
+				if selfCheck(c, cs) {
+					execWB(c, cs)
+				}
+				c.Observe("universe", "wire→backend document framing (grid)", 1)
+			}
+		}
+	}
 	c.Note("exhaustive_part", "client→wire: FilterTest{\"\",anyof,allof} x PropFilter.Test (same) x MatchType{\"\",equals,contains,starts-with,ends-with} x NegateCondition x {prop-level, param-level text match} x Limit{-1,0,1,2,2^31-1}, plus is-not-defined at both levels; "+
 		"wire→backend: test{absent,anyof,allof} at both levels x match-type{absent + 4} x negate-condition{absent,no,yes} x position, each in several lexical forms; "+
-		"every listed invalid value of test / match-type / negate-condition / nresults at every position of a fixed query.")
+		"every listed invalid value of test / match-type / negate-condition / nresults at every position of a fixed query; "+
+		"document framing: {no BOM, UTF-8 BOM} x {no declaration, 9 XML declarations (version 1.0, UTF-8 in three spellings, standalone, quote kinds, blanks)} and x 13 runs of comments / processing instructions / blanks before and after the root element, for a query and a multiget.")
 }
 
 func replay(c *fw.Ctx, w json.RawMessage) {
@@ -979,6 +1098,7 @@ func init() {
 		Rule: "client→wire: carddav.Client.QueryAddressBook/MultiGetAddressBook against a capturing HTTP client; the independent rfc6352 reader must accept the body (namespaces, names, child order, enumerations, positive nresults) and decode the caller's request (defaults normalised). " +
 			"wire→backend: the independent rfc6352 writer + xmltree.Render(FullLex) produce conformant documents served by the real carddav.Handler; the recording backend must receive the denoted request; invalid enumeration values must be answered 4xx without a backend query. " +
 			"Around every client call the caller's argument is deep-compared (slices up to capacity, marked spare elements): it must be unchanged. Reuse family: one request value passed to 2-3 successive calls on different collections, each captured request checked against the pristine value on that call's collection. Overlap family: 2-8 goroutines call through one client whose HTTP client parks all requests until everyone arrived, then reads the bodies in a seeded order (GOMAXPROCS 1 and 4); each body must denote its own caller's request; reuse/overlap findings are reported only when the same call alone is clean. " +
+			"Document framing (XML 1.0 productions 1, 22, 27; section 4.3.3 / appendix F): one document in four of every wire→backend family, plus a grid, carries a UTF-8 byte order mark, an XML declaration, comments, processing instructions and blanks before and after the root element; the request it denotes is the root element's. " +
 			"Related-href family: multiget hrefs equal to the request target, equal modulo trailing slash, parent, child, sibling, absolute-URI and fully percent-encoded spellings, at every position (only/first/middle/last/duplicated) for collection and object targets; client-to-backend family: MultiGetAddressBook (Paths nil/empty/self-listing/ordinary) through the real handler, backend hrefs compared with the wire document and the caller's value. " +
 			"Sequence family: every ordered pair (per separator , ; space empty | :) and random 2-6 call sequences of nearly colliding address-data requests (re-splits of one concatenation, reorderings, duplicates, prefixes, case variants, AllProp vs literal *, nil vs empty, key look-alikes) across query/multiget/sync-collection and across clients in one process; each request checked against its own call's argument. " +
 			"Generators: 0-4 prop-filters x 0-3 text-matches x 0-2 param-filters, all flags, hostile names/texts, limits -1/0/1/2/large, prop selections, href lists 0-20 with hostile names. " +
@@ -988,9 +1108,11 @@ func init() {
 			"AllProp, an empty property selection and an empty address-data element all denote 'whole cards' (RFC 6352 10.4) and compare equal; a property selection is compared as a set",
 			"when the request carries no address-data element (D:allprop, D:propname, no selection, D:prop without address-data) the AddressDataRequest the backend sees is not compared",
 			"collation and novalue are varied on the wire but not compared (the public API cannot express them)",
+			"a conformant nresults beyond the range of AddressBookQuery.Limit (2^63 and above): refusal, a query with a positive limit and a query without limit are accepted; an answer without a backend query or a negative limit is a finding",
 			"nresults denoting zero, an empty nresults and a limit without nresults are outside the grammar but not an enumeration of the statement: refusal, an empty answer without query and an unlimited query are all accepted",
 			"multiget with an empty Paths list: the client names the collection itself (documented behaviour, accepted)",
 			"Depth is required to be 1 or infinity on addressbook-query only; it is not checked on multiget (RFC 6352 8.7: ignored by the server)",
+			"framing is limited to UTF-8 documents of XML 1.0 without a document type declaration: other encodings, XML 1.1 and DTDs are not sent (a server may refuse them)",
 			"elements and attributes in foreign namespaces are extensions and ignored by the reader; anything unknown in the DAV: or CardDAV namespace, or un-namespaced, is a grammar violation",
 		},
 		MinEvals: func(t string) int64 {
